@@ -83,6 +83,11 @@ def _wrap(case, X):
     order = case["ids_order"]
     if case["container"] == "dataframe":
         names = case["names"]
+        if case.get("int_labels"):
+            # integer column *labels* that are not the positions (a permutation of 0..k-1 derived from the drawn
+            # names): for a DataFrame the ids are labels, never positions
+            rank = sorted(range(len(names)), key=lambda i: names[i])
+            names = [rank.index(i) for i in range(len(names))]
         ids = [names[s_pos[j]] for j in order]
         return pd.DataFrame(X, columns=names), ids
     ids = [s_pos[j] for j in order]
@@ -249,6 +254,8 @@ def check(case):
         tags.append("n<=ns")
     if case["container"] == "dataframe":
         tags.append("dataframe")
+        if case.get("int_labels"):
+            tags.append("dataframe_int_labels")
     if 0.0 < alpha < 1.0:
         tags.append("alpha_interior")
     if alpha in (0.0, 1.0):
@@ -329,6 +336,7 @@ def _cases(draw):
         "container": container,
         "names": names,
         "as_int": draw(st.booleans()),
+        "int_labels": draw(st.integers(0, 3)) == 0,
         "ids_tuple": draw(st.booleans()),
         "alpha": alpha,
         "new_a": new_rows(),
